@@ -47,6 +47,7 @@ type c08Tag struct {
 	I     int `json:"i"`     // tag index
 	V     int `json:"v"`     // value index in the pool
 	Alias int `json:"alias"` // 0: "N", 1: custom name (if the metric has one), 2: legacy "keyN"
+	Bad   int `json:"bad,omitempty"` // >0 and the tag is raw: send text #Bad that is not a number; the tag must stay unset (warning only)
 }
 
 type c08Ev struct {
@@ -114,7 +115,7 @@ func c08Metrics(c c08Case) []c08Metric {
 	mk := func(id int32, name string, res int, strategy string, k1, k2 uint32) *format.MetricMetaValue {
 		m := &format.MetricMetaValue{MetricID: id, Name: name, Resolution: res, ShardStrategy: strategy,
 			ShardFixedKey: k1, ShardFixedKey2: k2,
-			Tags: []format.MetricMetaTag{{}, {Name: "alpha"}, {}, {RawKind: "int"}, {}}}
+			Tags: []format.MetricMetaTag{{}, {Name: "alpha"}, {}, {RawKind: "int"}, {}, {RawKind: "int64"}, {}}}
 		if k2 != 0 {
 			m.ShardFixedKey2Timestamp = uint32(c08T0 + c.StartOff + c.DualStart)
 		}
@@ -157,7 +158,17 @@ func c08TagRaw(meta *format.MetricMetaValue, i int) bool {
 	return i < len(meta.Tags) && meta.Tags[i].Raw()
 }
 
+var c08BadRaw = []string{"n/a", "null", "12x", "--1", "0x10", "1e3", "1.5", "99999999999999999999999", "none", "v3_0"}
+
+// a raw tag whose value is not a number is not part of the series: the event is accepted, the tag stays unset
+func c08TagBad(meta *format.MetricMetaValue, t c08Tag) bool {
+	return t.Bad > 0 && c08TagRaw(meta, t.I)
+}
+
 func c08ValueString(meta *format.MetricMetaValue, t c08Tag) string {
+	if c08TagBad(meta, t) {
+		return c08BadRaw[(t.Bad-1)%len(c08BadRaw)]
+	}
 	if c08TagRaw(meta, t.I) {
 		return strconv.Itoa(t.V + 1)
 	}
@@ -271,6 +282,9 @@ type c08EvState struct {
 	stopped  bool
 	occ      []c08Occ
 	mapState string // which of the event's values were mapped on this agent
+	badText  string // the refused raw values, in tag-index order
+	badRaw   int    // raw tags sent with a text that is not a number
+	unmapped int    // string tags whose value was not in the mapping cache
 }
 
 type c08Run struct {
@@ -368,21 +382,33 @@ func c08Execute(t vpT, c c08Case, variantB bool) *c08Run {
 			}
 			mb := tlstatshouse.MetricBytes{Name: []byte(m.meta.Name)}
 			tagVals := map[int]string{}
-			var mapState []string
+			var mapState, badTexts []string
 			for _, ti := range order {
 				tg := ev.Tags[ti]
-				val := c08ValueString(m.meta, tg)
-				if _, dup := tagVals[tg.I]; dup {
-					t.Fatalf("bad case: tag set twice")
+				if tg.Bad > 0 && !c08TagRaw(m.meta, tg.I) {
+					continue // this metric has no raw tag at that index (hardware metrics): nothing to refuse
 				}
-				tagVals[tg.I] = val
+				val := c08ValueString(m.meta, tg)
+				if c08TagBad(m.meta, tg) {
+					st.badRaw++
+					badTexts = append(badTexts, fmt.Sprintf("%d=%s", tg.I, val))
+				} else {
+					if _, dup := tagVals[tg.I]; dup {
+						t.Fatalf("bad case: tag set twice")
+					}
+					tagVals[tg.I] = val
+				}
 				mb.Tags = append(mb.Tags, tl.DictFieldStringStringBytes{Key: []byte(c08TagName(m, tg)), Value: []byte(val)})
 				if !c08TagRaw(m.meta, tg.I) {
 					if _, ok := a.mappingsCache.GetValue(nowUnix, val); ok {
 						mapState = append(mapState, strconv.Itoa(tg.I))
+					} else {
+						st.unmapped++
 					}
 				}
 			}
+			sort.Strings(badTexts)
+			st.badText = strings.Join(badTexts, ";")
 			sort.Strings(mapState)
 			st.mapState = strings.Join(mapState, ",")
 			if ev.Host != 0 {
@@ -434,6 +460,25 @@ func c08Execute(t vpT, c c08Case, variantB bool) *c08Run {
 			a.Map(data_model.HandlerArgs{MetricBytes: &mb, Scratch: &scratch}, &h, nil)
 			if h.IngestionStatus != 0 {
 				t.Fatalf("bad case: generated event rejected by mapping: status %d", h.IngestionStatus)
+			}
+			// the mapped header must describe exactly the series: key tags, and the original values that feed the
+			// resolution hash (tags that are absent or were refused must leave no trace in either)
+			if got := canon(&h.Key); got != st.series {
+				t.Fatalf("event of series %s (tags sent: %s) was mapped to key %s", st.series, mb.String(), got)
+			}
+			for i := 0; i < format.StringTopTagIndexV3; i++ {
+				if got, want := string(h.OriginalTagValues[i]), tagVals[i]; got != want {
+					t.Fatalf("event of series %s (tags sent: %s): original value of tag %d that feeds the resolution hash is %q, the series has %q", st.series, mb.String(), i, got, want)
+				}
+			}
+			if st.badRaw > 0 {
+				if h.InvalidRawTagKey == 0 {
+					t.Fatalf("event with a non-numeric raw tag value (%s) got no invalid-raw warning", mb.String())
+				}
+				run.cls["invalid-raw"] = true
+				if st.unmapped > 0 {
+					run.cls["invalid-raw-with-unmapped"] = true
+				}
 			}
 			a.ApplyMetric(&mb, &h, &scratch)
 			run.bySeries[st.series] = append(run.bySeries[st.series], len(run.evs))
@@ -673,6 +718,12 @@ func c08CheckRun(t vpT, c c08Case, r *c08Run, who string) []uint32 {
 			}
 			if st.res > 1 {
 				r.cls["lowres-not-late"] = true
+				if st.badRaw > 0 {
+					r.cls["invalid-raw-lowres-not-late"] = true
+					if g := groups[key]; g.ev != i && r.evs[g.ev].badText != st.badText {
+						r.cls["invalid-raw-same-row-different-garbage"] = true
+					}
+				}
 			}
 		}
 	}
@@ -770,11 +821,24 @@ func c08Gen() *rapid.Generator[c08Case] {
 		}
 		genTags := func() []c08Tag {
 			var tags []c08Tag
-			for _, i := range []int{0, 1, 2, 3, 4} {
-				if rapid.IntRange(0, 2).Draw(t, "hastag") == 0 {
+			for _, i := range []int{0, 1, 2, 3, 4, 5} {
+				p := 2
+				if i == 5 {
+					p = 5 // the raw64 tag is rarer
+				}
+				if rapid.IntRange(0, p).Draw(t, "hastag") == 0 {
 					continue
 				}
-				tags = append(tags, c08Tag{I: i, V: rapid.IntRange(0, 2).Draw(t, "val"), Alias: rapid.SampledFrom([]int{0, 0, 1, 2}).Draw(t, "alias")})
+				tg := c08Tag{I: i, V: rapid.IntRange(0, 2).Draw(t, "val"), Alias: rapid.SampledFrom([]int{0, 0, 1, 2}).Draw(t, "alias")}
+				if i == 3 || i == 5 {
+					switch rapid.IntRange(0, 9).Draw(t, "rawclass") {
+					case 0, 1, 2: // not a number: accepted with a warning, tag unset
+						tg.Bad = rapid.IntRange(1, len(c08BadRaw)).Draw(t, "bad")
+					case 3: // a valid value and a refused one for the same tag
+						tags = append(tags, c08Tag{I: i, V: tg.V, Bad: rapid.IntRange(1, len(c08BadRaw)).Draw(t, "bad")})
+					}
+				}
+				tags = append(tags, tg)
 			}
 			return rapid.Permutation(tags).Draw(t, "order")
 		}
@@ -792,6 +856,11 @@ func c08Gen() *rapid.Generator[c08Case] {
 			if rapid.IntRange(0, 9).Draw(t, "frompool") < 7 {
 				tp = pool[rapid.IntRange(0, len(pool)-1).Draw(t, "pool")]
 				tp.tags = rapid.Permutation(tp.tags).Draw(t, "evorder")
+				for i := range tp.tags { // same series again, other garbage in the refused raw tags
+					if tp.tags[i].Bad > 0 {
+						tp.tags[i].Bad = rapid.IntRange(1, len(c08BadRaw)).Draw(t, "bad")
+					}
+				}
 			} else {
 				tp = tmpl{m: rapid.IntRange(0, 8).Draw(t, "metric"), tags: genTags()}
 			}
